@@ -1,6 +1,7 @@
 import Crusta.Proofs.Oracle
 import Crusta.Proofs.StaticAll
 import Crusta.Proofs.StoreIccma
+import Crusta.Proofs.StaticNodup
 
 /-! # C01 — single-extension answers are genuine extensions (property theorems) -/
 
@@ -66,5 +67,23 @@ theorem views_present_their_graph :
   refine ⟨AF.view_ok, fun ops => ?_, fun n atts h => ⟨Store.ofIccma_view_ok n atts h, Store.ofIccma_g n atts h⟩⟩
   obtain ⟨s, hs, hinv, hrows⟩ := Store.rows_reachable ops
   exact ⟨s, hs, Store.view_ok s hinv hrows⟩
+
+/-- every list a static solver returns — extension or certificate — is duplicate-free (this does
+not even depend on the SAT solver's replies) -/
+theorem returned_lists_are_duplicate_free (sk : SolverKind) (cfg : Cfg) (v : FwView) (g : G) (hv : v.Ok g)
+    (e : Entry) (hargs : ∀ a, a ∈ e.argsList → g.live a = true) (p : Prog Ans)
+    (hp : entryProg sk cfg v e = some p) (w : World) (rs : List Reply) (ans : Ans) (w' : World)
+    (hs : RunSound p rs w) (hrun : interp p rs w = (.done ans, w')) : AnsNodup ans :=
+  static_answers_nodup_run sk cfg v g hv e hargs p hp w rs hs ans w' hrun
+
+/-- **theorem and judge agree**: on a compact well-formed framework every answer the solver
+programs can return on sound replies is accepted by the run-time judge `checkAnswer` (so on the
+unchanged tree a `verdict BAD` can only come from a difference between model and implementation) -/
+theorem answers_accepted_by_judge (sk : SolverKind) (cfg : Cfg) (hcfg : CfgOK sk cfg) (af : AF) (hwf : af.WF)
+    (e : Entry) (hargs : ∀ a, a ∈ e.argsList → af.g.live a = true) (p : Prog Ans)
+    (hp : entryProg sk cfg af.view e = some p) (w : World) (hb : w.Bounded) (rs : List Reply)
+    (hs : RunSound p rs w) (ans : Ans) (w' : World) (hrun : interp p rs w = (.done ans, w')) :
+    checkAnswer af (queryOf sk e) (answerOf ans) = .ok () :=
+  static_answers_accepted_by_judge sk cfg hcfg af hwf e hargs p hp w hb rs hs ans w' hrun
 
 end Crusta.C01
